@@ -574,6 +574,16 @@ pub fn run_gens(cfg: &Value) -> Value {
     let n = cfg["n"].as_u64().unwrap() as usize;
     let cap = cfg["cap"].as_u64().unwrap() as usize;
     let x = cfg["x"].as_u64().unwrap_or(1) as usize;
+    // parameter sets built EARLIER in the same process (other bit lengths / capacities / degrees): what this one gets must not depend on them
+    if let Some(pre) = cfg["prebuild"].as_array() {
+        for p in pre {
+            let pn = p[0].as_u64().unwrap_or(1) as usize;
+            let pcap = p[1].as_u64().unwrap_or(1) as usize;
+            let px = p[2].as_u64().unwrap_or(1) as usize;
+            let other = RangeParameters::init(pn, pcap, ristretto::create_pedersen_gens_with_extension_degree(ext_degree(px))).expect("params");
+            let _ = other.gi_base_iter().count();
+        }
+    }
     let pc = ristretto::create_pedersen_gens_with_extension_degree(ext_degree(x));
     let pc_h = env::point_id(&pc.h_base);
     let pc_hc = env::hex32(pc.h_base_compressed.as_bytes());
